@@ -401,8 +401,10 @@ func (p *tlsPeer) run(items []pitem) {
 		for i, it := range items {
 			if it.cert != 0 && i == 0 && it.cert < len(p.bad) {
 				p.cfg = p.bad[it.cert]
-				start()
-				return // (a client that accepts the certificate gets nothing more)
+				if !start() {
+					return
+				}
+				continue // (the client accepted the certificate: go on, so that the session comes about)
 			}
 			if it.junk {
 				p.w.pushRaw(it.b)
